@@ -10,6 +10,7 @@ pub mod intercept;
 pub mod routing;
 pub mod deadline;
 pub mod reconnect;
+pub mod shutdown;
 
 /// Shared event recorder so that events survive a panic or hang of the run.
 #[derive(Clone, Default)]
@@ -44,6 +45,7 @@ fn run_one(lab: &str, stim: &Value, rec: &Rec) {
         "routing" => routing::run(stim, rec),
         "deadline" => deadline::run(stim, rec),
         "reconnect" => reconnect::run(stim, rec),
+        "shutdown" => shutdown::run(stim, rec),
         _ => { eprintln!("unknown lab {lab}"); std::process::exit(2) }
     }
 }
